@@ -102,6 +102,22 @@ fn views_agree(scn: &ChatScn, w: &mut World, v: &View, goals: &mut BTreeSet<Stri
                 Err(e) => return vec![finding("machinery", e.0)],
             }
         }
+        // one WHOIS naming everybody says about each user what a WHOIS of that user alone says
+        if all_nicks.len() >= 2 {
+            match whois_multi_view(w, viewer, &all_nicks) {
+                Ok(multi) => {
+                    for n in &all_nicks {
+                        let single = whois.get(n).cloned().flatten();
+                        let together = multi.get(n).cloned();
+                        if single != together {
+                            out.push(finding("views:whois-list-vs-single", format!("viewer slot {}: WHOIS {} reports {:?} for {}, WHOIS {} alone reports {:?}", viewer, all_nicks.join(","), together, n, n, single)));
+                        }
+                    }
+                    goals.insert("whois-list-compared".into());
+                }
+                Err(e) => return vec![finding("machinery", e.0)],
+            }
+        }
         for ch in chans_of(scn).iter().map(|c| c.as_str()) {
             let members: BTreeSet<String> = v.m.chans.get(ch).map(|c| c.members.keys().cloned().collect()).unwrap_or_default();
             // "to a client entitled to see them": an outsider of a secret channel is shown nothing
